@@ -178,7 +178,7 @@ fn main() {
                     .map(|(_, _, asm_f)| run_main(&asm_f, &sentinels, &args));
                 for j in 0..=k {
                     let fj = render(&its, Some(j));
-                    for ctx in 0..7 {
+                    for ctx in 0..8 {
                         let body = match ctx {
                             0 => format!("⍣({fj})({h})"),
                             1 => format!("⬚7(⍣({fj})({h}))"),
@@ -188,11 +188,21 @@ fn main() {
                             4 => format!("⍣(⬚7({fj}))({h})"),
                             5 => format!("⍣(⬚7(⊙∘ ⬚8({fj})))({h})"),
                             // (the error value lies BENEATH the arguments: it is popped under the one output)
-                            _ => {
+                            6 => {
                                 if fo != 1 {
                                     continue;
                                 }
                                 format!("⍣({fj}|⍤\"mid\"0 ⊙◌ {h} ◌|⊙◌ {h} ◌)")
+                            }
+                            // the middle handler has NO outputs and takes all the arguments: it is given the
+                            // error value beneath them (not as an argument) and fails; the last handler has
+                            // as many outputs as the try and does not ask for the error: the value given to
+                            // the middle handler must be gone when it runs (repair 5e30998)
+                            _ => {
+                                if fo != 1 {
+                                    continue;
+                                }
+                                format!("⍣({fj}|⍤\"mid\"0 {}|{h})", "◌".repeat(fa))
                             }
                         };
                         let Some((ta, to, asm_t)) = sig_of(&body, &prelude) else { continue };
